@@ -419,3 +419,113 @@ Proof.
   destruct (a_scales a) as [sy sx] eqn:Es. rewrite pixel_scale_header_roundtrip. cbn [fbind].
   apply Array2D_no_mask_native.
 Qed.
+
+(* ---- file route, 2-D arrays and kernels ---- *)
+Theorem Array2D_output_is_to_fits flip (fs : fitsfs (T RO) (list (T RO))) (a : @array2d RO) p ow :
+  Array2D_output_to_fits flip fs a p ow = to_fits fs p ow [Array2D_hdu_for_output flip a].
+Proof. reflexivity. Qed.
+
+Lemma via_fits_written_2d {V X} flip (fs : fitsfs V X) p (arr : list X) hd k :
+  lookup (files fs) p = Some [hdu_for_output_from_2d flip arr hd] ->
+  numpy_array_2d_via_fits_from flip fs p k = (if sole_index k then FOk arr else FRaise IndexErr)
+  /\ header_obj_from fs p k = (if sole_index k then FOk hd else FRaise IndexErr).
+Proof.
+  intros H. unfold numpy_array_2d_via_fits_from, header_obj_from. rewrite (hdu_at_written _ _ _ k H).
+  destruct (sole_index k); cbn [fbind]; [|split; reflexivity].
+  destruct (flip_unflip flip arr hd) as [H1 H2]. rewrite H2. split; [|reflexivity].
+  unfold flip_hdu_for_ds9 in H1. destruct flip; now rewrite H1.
+Qed.
+
+Theorem Array2D_file_roundtrip flip (fs : fitsfs (T RO) (list (T RO))) (a : @array2d RO) p ow sc k :
+  fs_wf fs = true -> target_ok fs p = true -> fresh_or_overwrite fs p ow = true -> sole_index k = true ->
+  exists fs' a' hs hh,
+    Array2D_output_to_fits flip fs a p ow = (fs', None)
+    /\ Array2D_from_fits flip fs' p sc k = FOk (a', hs, hh)
+    /\ Array2D_native a' = Array2D_native a
+    /\ a_mask a' = all_false2 (Array2D_native a)
+    /\ a_scales a' = sc
+    /\ pixel_scales_via_header_from hs = FOk (a_scales a)
+    /\ pixel_scales_via_header_from hh = FOk (a_scales a).
+Proof.
+  intros Hwf Hok Hfo Hk. rewrite Array2D_output_is_to_fits.
+  destruct (to_fits_success fs p ow [Array2D_hdu_for_output flip a] Hwf Hok Hfo) as [fs' [Hw [Hl _]]].
+  unfold Array2D_hdu_for_output in Hl.
+  destruct (Array2D_no_mask_native (Array2D_native a) sc) as [a' [Ha' [Hn [Hm Hs]]]].
+  exists fs', a'. do 2 eexists. split; [exact Hw|]. split.
+  - unfold Array2D_from_fits.
+    destruct (via_fits_written_2d flip fs' p _ _ k Hl) as [-> ->].
+    destruct (via_fits_written_2d flip fs' p _ _ 0%Z Hl) as [_ ->].
+    rewrite Hk. cbn [sole_index Z.eqb orb fbind]. rewrite Ha'. cbn [fbind]. reflexivity.
+  - repeat split; try assumption; destruct (a_scales a); apply pixel_scale_header_roundtrip.
+Qed.
+Theorem Array2D_file_bad_hdu flip (fs : fitsfs (T RO) (list (T RO))) (a : @array2d RO) p ow sc k :
+  fs_wf fs = true -> target_ok fs p = true -> fresh_or_overwrite fs p ow = true -> sole_index k = false ->
+  Array2D_from_fits flip (fst (Array2D_output_to_fits flip fs a p ow)) p sc k = FRaise IndexErr.
+Proof.
+  intros Hwf Hok Hfo Hk. rewrite Array2D_output_is_to_fits.
+  destruct (to_fits_success fs p ow [Array2D_hdu_for_output flip a] Hwf Hok Hfo) as [fs' [Hw [Hl _]]].
+  rewrite Hw. cbn [fst]. unfold Array2D_hdu_for_output in Hl. unfold Array2D_from_fits.
+  destruct (via_fits_written_2d flip fs' p _ _ k Hl) as [-> _]. now rewrite Hk.
+Qed.
+(* Kernel2D.from_fits(normalize=False) returns the array read by Array2D.from_fits *)
+Theorem Kernel2D_file_roundtrip flip (fs : fitsfs (T RO) (list (T RO))) (a : @array2d RO) p ow sc k :
+  fs_wf fs = true -> target_ok fs p = true -> fresh_or_overwrite fs p ow = true -> sole_index k = true ->
+  exists fs' a' hs hh,
+    Array2D_output_to_fits flip fs a p ow = (fs', None)
+    /\ Kernel2D_from_fits flip fs' p k sc false = FOk (a', hs, hh)
+    /\ Array2D_native a' = Array2D_native a
+    /\ a_scales a' = sc
+    /\ pixel_scales_via_header_from hs = FOk (a_scales a).
+Proof.
+  intros Hwf Hok Hfo Hk.
+  destruct (Array2D_file_roundtrip flip fs a p ow sc k Hwf Hok Hfo Hk) as [fs' [a' [hs [hh [Hw [Hr [Hn [Hm [Hs [Hh1 Hh2]]]]]]]]]].
+  exists fs', a', hs, hh. split; [exact Hw|]. split; [|auto].
+  unfold Kernel2D_from_fits. rewrite Hr. cbn [fbind fst].
+  unfold Array2D_from_fits in Hr.
+  destruct (numpy_array_2d_via_fits_from flip fs' p k); [|discriminate]. cbn [fbind] in Hr.
+  destruct (header_obj_from fs' p 0) as [h0|]; [|discriminate]. cbn [fbind] in Hr.
+  destruct (header_obj_from fs' p k) as [hk|]; [|discriminate]. cbn [fbind] in Hr.
+  destruct (Array2D_no_mask a0 sc); [|discriminate]. cbn [fbind] in Hr. injection Hr as -> -> ->.
+  reflexivity.
+Qed.
+
+(* ---- Mask2D ---- *)
+Lemma tobool_tofloat_rows (m : list (list bool)) : map (map (@tobool RO)) (map (map (@tofloat RO)) m) = m.
+Proof.
+  induction m as [|r m IH]; [reflexivity|]. cbn [map]. rewrite IH. f_equal.
+  induction r as [|b r IHr]; [reflexivity|]. cbn [map]. now rewrite tobool_tofloat, IHr.
+Qed.
+Lemma negtobool_tofloat_rows (m : list (list bool)) :
+  map (map (fun v => negb (@tobool RO v))) (map (map (@tofloat RO)) m) = map (map negb) m.
+Proof.
+  induction m as [|r m IH]; [reflexivity|]. cbn [map]. rewrite IH. f_equal.
+  induction r as [|b r IHr]; [reflexivity|]. cbn [map]. now rewrite tobool_tofloat, IHr.
+Qed.
+Theorem Mask2D_hdu_roundtrip flip (m : @mask2d RO) :
+  Mask2D_from_primary_hdu flip (Mask2D_hdu_for_output flip m) = FOk m.
+Proof.
+  unfold Mask2D_from_primary_hdu, Mask2D_hdu_for_output.
+  destruct (flip_unflip flip (map (map (@tofloat RO)) (m_mask m)) (pixel_scale_header (scales2 (m_scales m)))) as [-> ->].
+  destruct m as [mm [sy sx]]. cbn [m_mask m_scales]. rewrite pixel_scale_header_roundtrip. cbn [fbind].
+  now rewrite tobool_tofloat_rows.
+Qed.
+Theorem Mask2D_output_is_to_fits flip (fs : fitsfs (T RO) (list (T RO))) (m : @mask2d RO) p ow :
+  Mask2D_output_to_fits flip fs m p ow = to_fits fs p ow [Mask2D_hdu_for_output flip m].
+Proof. reflexivity. Qed.
+Theorem Mask2D_file_roundtrip flip (fs : fitsfs (T RO) (list (T RO))) (m : @mask2d RO) p ow sc k inv :
+  fs_wf fs = true -> target_ok fs p = true -> fresh_or_overwrite fs p ow = true -> sole_index k = true ->
+  exists fs',
+    Mask2D_output_to_fits flip fs m p ow = (fs', None)
+    /\ Mask2D_from_fits flip fs' p sc k None inv
+       = FOk (mkmask2 (if inv then map (map negb) (m_mask m) else m_mask m) sc)
+    /\ (do h <- header_obj_from fs' p k; pixel_scales_via_header_from h) = FOk (m_scales m).
+Proof.
+  intros Hwf Hok Hfo Hk. rewrite Mask2D_output_is_to_fits.
+  destruct (to_fits_success fs p ow [Mask2D_hdu_for_output flip m] Hwf Hok Hfo) as [fs' [Hw [Hl _]]].
+  unfold Mask2D_hdu_for_output in Hl.
+  exists fs'. split; [exact Hw|].
+  destruct (via_fits_written_2d flip fs' p _ _ k Hl) as [Hv Hh]. unfold Mask2D_from_fits. rewrite Hv, Hh, Hk.
+  cbn [fbind]. split.
+  - destruct inv; [now rewrite negtobool_tofloat_rows|now rewrite tobool_tofloat_rows].
+  - destruct (m_scales m). apply pixel_scale_header_roundtrip.
+Qed.
